@@ -31,7 +31,9 @@ type Scenario struct {
 //	       connected is not part of C16); G: the caller parks at conn.wait (after
 //	       it registered, before it waits for the dial); D: arm conn.dial.result
 //	       for A (the dial goroutine parks between the return of the dial
-//	       function and the publication of its result).
+//	       function and the publication of its result). F: if this request
+//	       starts a dial, the dial function returns at once (1 = a fresh
+//	       connection, 2 = an error) instead of parking until a fin step.
 //	fin    the I-th dial function that is parked returns: OK = a fresh idle
 //	       connection, otherwise an error. G: arm conn.dial.result first.
 //	rel    the I-th unreleased handle is released (done()).
@@ -50,6 +52,7 @@ type Step struct {
 	B  bool   `json:"b,omitempty"`
 	G  bool   `json:"g,omitempty"`
 	D  bool   `json:"d,omitempty"`
+	F  int    `json:"f,omitempty"`
 	OK bool   `json:"ok,omitempty"`
 	I  int    `json:"i,omitempty"`
 }
@@ -72,6 +75,12 @@ func (s Step) String() string {
 		}
 		if s.D {
 			f = append(f, "gate:"+pointDialResult)
+		}
+		switch s.F {
+		case 1:
+			f = append(f, "dial-returns-ok-at-once")
+		case 2:
+			f = append(f, "dial-returns-error-at-once")
 		}
 	case "fin":
 		out := "error"
